@@ -1316,6 +1316,11 @@ def m_result_method(ex, st, callee, args, dest_ty, frame, depth):
                 out.append((s2, Outcome("ret", ex.mk_enum(dest_ty, "Err", [errv]))))
             else:
                 out += ex.call_value(s2, args[1], [okv], dest_ty, frame, depth)
+        elif method == "or":
+            # eager: the alternative has already been evaluated by the caller
+            out.append((s2, Outcome("ret", ex.mk_enum(dest_ty, "Ok", [okv]) if vn == "Ok" else args[1])))
+        elif method == "and":
+            out.append((s2, Outcome("ret", args[1] if vn == "Ok" else ex.mk_enum(dest_ty, "Err", [errv]))))
         elif method == "map_or_else":
             if vn == "Err":
                 out += ex.call_value(s2, args[1], [errv], dest_ty, frame, depth)
